@@ -20,7 +20,7 @@ import (
 
 func c07Counts(tier string) (batches, per int) {
 	if tier == "thorough" {
-		return 4000, 100
+		return 20000, 100
 	}
 	return 400, 50
 }
